@@ -468,7 +468,7 @@ def c_plies_assumption(site, fx):
     # plies + 1 / killer table index at ply 255 in negamax: recorded assumption (no failing input in reach)
     if site.family == "arith" and site.what == "Add" and site.ty == "u8" and in_fn(site, "negamax::negamax"):
         return any(isinstance(deep_strip(o), tuple) and deep_strip(o)[:2] == ("arg", 5) for o in site.ops)
-    if site.family == "bounds" and in_fn(site, "KillersTable::get_0", "KillersTable::get_1", "KillersTable::try_push"):
+    if site.family == "bounds" and "search::tables::KillersTable::" in bn(site):
         # checked part: one slot per ply up to the maximum search depth
         ln = deep_strip(site.ops[0]) if site.ops else None
         try:
